@@ -121,6 +121,27 @@ def gen(chk):
         elif op == 'set_int': k = r.choice([0, 1, 0xffffffff, r.bits(32), r.bits(64), (1 << 64) - 1])
         if op == 'is' and r.chance(1, 4): b = a
         chk.add('sc_op %s %s %s #%d' % (nm(op), h32(a), h32(b), k), 'sc_' + op)
+    # ripple carries across limb boundaries (32- and 64-bit limbs): a run of ones from bit j up to bit k, plus one at bit j
+    for k in (31, 32, 33, 63, 64, 65, 95, 96, 97, 127, 128, 129, 159, 160, 191, 192, 193, 223, 224, 250):
+        for j in sorted(set([0, 1, max(0, k - 33), max(0, k - 64), max(0, k - 65), max(0, k - 97), max(0, k - 1)])):
+            if j >= k: continue
+            hi = r.bits(250 - k) << (k + 1) if k < 249 else 0
+            a = (hi | ((1 << k) - (1 << j))) % N
+            if a + (1 << j) < N:
+                chk.add('sc_op %s %s %s #%d' % (nm('cadd_bit'), h32(a), h32(0), j | (1 << 8)), 'sc_cadd_bit_ripple')
+                chk.add('sc_op %s %s %s #%d' % (nm('cadd_bit'), h32(a), h32(0), j), 'sc_cadd_bit_ripple')
+            chk.add('sc_op %s %s %s #0' % (nm('add'), h32(a), h32(1 << j)), 'sc_add_ripple')
+            chk.add('sc_op %s %s %s #0' % (nm('add'), h32(a), h32((N - a) % N)), 'sc_add_ripple')
+    # rounding multiplication by a shift (used by the lambda split): products whose truncated quotient ends in a run of ones
+    for i in range(S(300, 5000)):
+        sh = r.choice([384, 384, 385, 400])
+        b = r.choice([0x3086D221A7D46BCDE86C90E49284EB153DAA8A1471E8CA7FE893209A45DBB031, 0xE4437ED6010E88286F547FA90ABFE4C4221208AC9DF506C61571B4AE8AC47F71, r.bits(256)]) % N
+        top = 510 - sh      # the quotient of a 512-bit product has at most this many bits
+        run = r.choice([64, 65, 70, 96, top - 8])
+        want = ((r.bits(top - run) << run) | ((1 << run) - 1)) << sh
+        a = ((want + (1 << (sh - 1)) + (1 << 258)) // b) % N if b else 0      # a*b = target - (target mod b): the slack keeps the rounding bit set
+        for d in (0, 1, -1, 2):
+            chk.add('sc_op %s %s %s #%d' % (nm('mul_shift'), h32((a + d) % N), h32(b), sh), 'sc_mul_shift_rounding_run_of_ones')
     # ---- group law: all special cases ----
     pts = [mul(d, G) for d in (1, 2, 3, N - 1, N - 2, 5, r.seckey(), r.seckey(), r.seckey())]
     def zval(): return r.choice([0, 1, 2, P - 1, r.scalar256()])
@@ -146,6 +167,16 @@ def gen(chk):
     # ---- scalar multiplication ----
     kvals = [0, 1, 2, N - 1, N - 2, N, (1 << 128), (1 << 128) - 1, (1 << 127), LAMBDA, N - LAMBDA, (1 << 255), N // 2, N // 2 + 1,
              0xe4437ed6010e88286f547fa90abfe4c3, 0x3086d221a7d46bcde86c90e49284eb15]
+    # scalars whose lambda-split quotients k*g1 >> 384 or k*g2 >> 384 end in a run of ones with the rounding bit set (the
+    # round-to-nearest increment then carries across limbs)
+    G1, G2 = 0x3086D221A7D46BCDE86C90E49284EB153DAA8A1471E8CA7FE893209A45DBB031, 0xE4437ED6010E88286F547FA90ABFE4C4221208AC9DF506C61571B4AE8AC47F71
+    for i in range(S(20, 300)):
+        b = r.choice([G1, G2]); run = r.choice([64, 65, 70, 96, 118])
+        want = ((r.bits(126 - run) << run) | ((1 << run) - 1)) << 384
+        k = (want + (1 << 383) + (1 << 258)) // b
+        if 0 < k < N:
+            kvals.append(k)
+            chk.add('sc_op %s %s %s #0' % (nm('split_lambda'), h32(k), h32(0)), 'sc_split_lambda_rounding_carry')
     def kv(): return r.choice(kvals) if r.chance(1, 3) else sc_val(r)
     for i in range(S(220, 6000)):
         A = r.choice(pts + [None]) if r.chance(1, 2) else mul(r.seckey(), G)
